@@ -20,7 +20,7 @@ from .srcmodel import FunctionInfo
 from .srcmodel import Program
 from .srcmodel import dotted
 
-ESCAPERS = {"markupsafe.escape", "html.escape", "markupsafe.escape_silent", "markupsafe.soft_str"}
+ESCAPERS = {"markupsafe.escape", "html.escape", "markupsafe.escape_silent"}
 MARKUP = {"markupsafe.Markup"}
 ENCODERS = {"urllib.parse.quote_plus", "urllib.parse.quote"}
 STR_METHODS_PRESERVING = {
@@ -218,7 +218,10 @@ class Safety:
             if attr in GETTEXT_FAMILY and not is_self and len(args) > max(GETTEXT_FAMILY[attr]):
                 return all(self.safe(fi, args[i], env, depth) for i in GETTEXT_FAMILY[attr])
             if attr == "strftime" and len(args) == 1:
-                return self.safe(fi, args[0], env, depth)  # digits and locale names plus the literal characters of the format
+                # digits and locale names plus the literal characters of the format - and, for %Z, the name of the time zone, which
+                # is arbitrary text held by the datetime's tzinfo (datetime.timezone(offset, name)): safe only where that name has
+                # been tested against its escaped form (or found empty) on the path here
+                return isinstance(recv, ast.Name) and bool(env.get("#tzsafe:" + recv.id)) and self.safe(fi, args[0], env, depth)
             if attr in ("unescape", "striptags"):
                 return False
             if attr == "markup" and len(args) == 1:  # RenderContext.markup
@@ -278,17 +281,20 @@ class Safety:
 
         def bind(target: ast.AST, value_safe: bool, st: dict, value: ast.AST | None = None) -> None:
             if isinstance(target, ast.Name):
-                for k in (target.id, "#buf:" + target.id, "#int:" + target.id, "#dep:" + target.id, "#undef:" + target.id, "#undefsrc:" + target.id):
+                for k in (target.id, "#buf:" + target.id, "#int:" + target.id, "#dep:" + target.id, "#undef:" + target.id, "#undefsrc:" + target.id, "#tzsafe:" + target.id, "#tzof:" + target.id):
                     st.pop(k, None)
                 # anything that depended on the old value of this name is no longer justified
-                for k in [k for k, v in st.items() if k.startswith("#dep:") and target.id in v]:
+                for k in [k for k, v in st.items() if (k.startswith("#dep:") and (target.id in v or "#tzsafe:" + target.id in v)) or (k.startswith("#tzof:") and v == target.id)]:
                     st.pop(k, None)
                 if value_safe:
                     st[target.id] = True
                 elif value is not None:
                     callee_names = {id(c.func) for c in ast.walk(value) if isinstance(c, ast.Call) and isinstance(c.func, ast.Name)}
                     free = sorted({n.id for n in ast.walk(value) if isinstance(n, ast.Name) and id(n) not in callee_names and not st.get(n.id) and n.id in local_names})
-                    if free and len(free) <= 4:
+                    # x.strftime(fmt) is safe modulo the time zone name of x: a hypothesis a later test can discharge
+                    tz = sorted({"#tzsafe:" + c.func.value.id for c in ast.walk(value) if isinstance(c, ast.Call) and isinstance(c.func, ast.Attribute) and c.func.attr == "strftime" and isinstance(c.func.value, ast.Name) and not st.get("#tzsafe:" + c.func.value.id)})
+                    free = tz + free
+                    if free and len(free) <= 5:
                         import itertools
 
                         found = None
@@ -304,6 +310,13 @@ class Safety:
                                 break
                         if found:
                             st["#dep:" + target.id] = found
+                if value is not None:
+                    tv = value
+                    if isinstance(tv, ast.IfExp):
+                        alts = [x for x in (tv.body, tv.orelse) if not (isinstance(x, ast.Constant) and (x.value is None or x.value == ""))]
+                        tv = alts[0] if len(alts) == 1 else tv
+                    if isinstance(tv, ast.Call) and isinstance(tv.func, ast.Attribute) and tv.func.attr == "tzname" and isinstance(tv.func.value, ast.Name) and not tv.args:
+                        st["#tzof:" + target.id] = tv.func.value.id
                 if value is not None:
                     for u in ast.walk(value):
                         if isinstance(u, ast.Call) and isinstance(u.func, ast.Attribute) and u.func.attr == "undefined" and u.args and self.safe(fi, u.args[0], st):
@@ -395,7 +408,28 @@ class Safety:
             if (isinstance(test.op, ast.And) and branch) or (isinstance(test.op, ast.Or) and not branch):
                 for v in test.values:
                     self._refine(fi, v, st, branch)
+            else:
+                # a disjunction that holds / a conjunction that fails: one operand decided it - keep what every operand alone establishes
+                outs = []
+                for v in test.values:
+                    alt = dict(st)
+                    self._refine(fi, v, alt, branch)
+                    outs.append(alt)
+                for k in set.intersection(*(set(o) for o in outs)) if outs else ():
+                    if k not in st and all(o[k] == outs[0][k] for o in outs):
+                        st[k] = outs[0][k]
             return
+        # the time zone name tested against its escaped form, or found empty
+        if isinstance(test, ast.Compare) and len(test.ops) == 1 and isinstance(test.ops[0], (ast.Eq, ast.NotEq)):
+            a, b = test.left, test.comparators[0]
+            for x, y in ((a, b), (b, a)):
+                if isinstance(x, ast.Call) and len(x.args) == 1 and self.qual(fi, x.func) in ESCAPERS and isinstance(y, ast.Name) and isinstance(x.args[0], ast.Name) and x.args[0].id == y.id:
+                    if branch == isinstance(test.ops[0], ast.Eq):
+                        st[y.id] = True  # the text is its own escaped form: it holds no HTML-significant character
+                        if st.get("#tzof:" + y.id):
+                            st["#tzsafe:" + st["#tzof:" + y.id]] = True
+        if isinstance(test, ast.Name) and not branch and st.get("#tzof:" + test.id):
+            st["#tzsafe:" + st["#tzof:" + test.id]] = True  # no time zone name at all
         if isinstance(test, ast.Call) and isinstance(test.func, ast.Name) and test.func.id == "isinstance" and len(test.args) == 2 and branch:
             v, t = test.args
             if isinstance(v, ast.Name):
